@@ -40,6 +40,19 @@ func main() {
 			}
 			dumpEff(c, filter)
 			code = 0
+		case "tri":
+			c := loadProgram(repoDir(), mambaMod, 9)
+			r := ruleTri(c, func(string) bool { return true }, "TRI")
+			for _, i := range r.Instances {
+				fmt.Println(i)
+			}
+			for _, f := range r.Findings {
+				fmt.Printf("FINDING %s [%s] %s\n", f.Pos, f.Key, f.Msg)
+			}
+			for _, n := range r.Notes {
+				fmt.Println("note:", n)
+			}
+			code = 0
 		case "bounds":
 			c := loadProgram(repoDir(), mambaMod, 9)
 			for _, name := range os.Args[2:] {
